@@ -64,7 +64,9 @@ def variant(spec, vi, ci, ctx):
     for ri, (role, cont, key) in enumerate(quantities(sp)):
         q = cont[key]
         us = SI.units(q['k'])
-        u = us[(ci * 3 + vi + ri * 5 + hash_role(role)) % len(us)]
+        # the position of the quantity in the scenario enters through a mixing term as well: a plain multiple of ri gives two
+        # mated gears (whose quantities lie a fixed distance apart) the SAME length unit in every variant
+        u = us[(ci * 3 + vi + ri * 5 + (ri * ri) // 3 + hash_role(role)) % len(us)]
         if q['k'] in ('Time', 'TimeInterval') and q['v'] != 0 and abs(GEN.qsi(q)) / SI.FACT['Time'][u] < 1e-6:
             # a time value below 1e-6 in its unit enters the zone of the library's absolute 1e-12 comparison tolerance
             # (defect D9, recorded under C05): that unit is left to baselines with slower dynamics
